@@ -251,6 +251,8 @@ func c15CheckDecode(r *ev.Result, class string, enc, orig []byte, mustEqual bool
 			lines := bytes.Split(enc, []byte{'\n'})
 			if de.Line < 0 || de.Line >= len(lines) || de.Offset < 0 || de.Offset > len(lines[de.Line]) || nil == de.Err {
 				c15Viol(r, "decode-error-location/"+class, fmt.Sprintf("error location outside the input: %+v", de), "decode", enc)
+			} else if wl, wo := c15FirstBad(lines); wl != de.Line || (wo >= 0 && wo != de.Offset) {
+				c15Viol(r, "decode-error-wrong-place/"+class, fmt.Sprintf("the error points at line %d offset %d (%v); the first problem is on line %d (offset %d) of %q", de.Line, de.Offset, de.Err, wl, wo, trunc(enc)), "decode", enc)
 			}
 		}
 		if nil != got {
@@ -273,6 +275,43 @@ func c15CheckDecode(r *ev.Result, class string, enc, orig []byte, mustEqual bool
 		c15Viol(r, "maxdecodedlen/"+class, fmt.Sprintf("MaxDecodedLen=%d < %d", m, len(dec)), "decode", enc)
 	}
 	return true
+}
+
+// c15FirstBad returns the index (counting every line, blank ones included,
+// from 0) of the first line that is not valid uuencoded text, and the offset
+// of the first character outside the alphabet on it (-1 if the problem is the
+// line's shape rather than one character).  -1, -1 if all lines are valid.
+func c15FirstBad(lines [][]byte) (line, offset int) {
+	for i, l := range lines {
+		if 0 == len(l) {
+			continue
+		}
+		if '\r' == l[len(l)-1] {
+			l = l[:len(l)-1]
+		}
+		if 0 == len(l) {
+			return i, -1 /* A lone CR: no length character. */
+		}
+		if 0 != (len(l)-1)%4 {
+			return i, -1
+		}
+		n := 0
+		if '`' != l[0] {
+			if l[0] < 32 {
+				return i, -1
+			}
+			n = int(l[0]) - 32
+		}
+		if len(l)-1 != (n+2)/3*4 {
+			return i, -1
+		}
+		for j := 1; j < len(l); j++ {
+			if l[j] < 32 || l[j] > 96 {
+				return i, j
+			}
+		}
+	}
+	return -1, -1
 }
 
 func c15(r *ev.Result, tier string) {
